@@ -13,10 +13,10 @@ META = dict(
               "solver reals), each call solver-chosen among Policy.call / Policy.execute / AsyncPolicy.call / "
               "AsyncPolicy.execute (job: with a one-attempt retry component, or without retry), operation outcome in "
               "{value, TRANSIENT failure (counted), PERMANENT failure (not counted)}, solver-real clock advance before each "
-              "call, optionally a direct breaker operation in between; compared step by step with the reference breaker of "
+              "call; compared step by step with the reference breaker of "
               "C06; direct breaker histories of 3 operations (C06's harness); async race: 2 concurrent AsyncPolicy.call coroutines plus a third call started later on a breaker "
               "whose recovery timeout has elapsed, resumed in every solver-chosen order",
-        thorough="4 calls; 3 concurrent coroutines",
+        thorough="4 calls; 3 calls with a direct breaker operation (record_failure / allow+cancel) after each; direct histories K=4; 3 concurrent coroutines",
     ),
     assumptions=["floats as reals", "the breaker-level transition table is decided by C06's history harness (same reference)",
                  "race harness: calls are AsyncPolicy.call with a retry component; suspension points = awaits of the operation"],
@@ -68,7 +68,10 @@ def h_policy(sym, params):
                 which = KINDS[pk]
             else:
                 which = sym.choice(f"call{c}", params.get("kinds_later", KINDS) if c else KINDS)
-            cur["outcome"] = sym.choice(f"out{c}", ["ok", "fail_T", "fail_P"])
+            if c == 0 and "pin_out0" in params:
+                cur["outcome"] = ["ok", "fail_T", "fail_P"][params["pin_out0"]]
+            else:
+                cur["outcome"] = sym.choice(f"out{c}", ["ok", "fail_T", "fail_P"])
             now = clock.now
             exp_allowed, exp_state, _ev = ref.allow(now)
             before = invoked[0]
@@ -214,12 +217,23 @@ def jobs(tier):
     out = []
     wall = 600 if q else 3000
     calls = 3 if q else 4
+    OUTS = ["ok", "fail_T", "fail_P"]
     for retry in (True, False):
         for c0 in range(4):
-            out.append(dict(name=f"policy:retry={retry}:call0={KINDS[c0]}", harness="rv.props.c07:h_policy",
-                            params=dict(retry=retry, calls=calls, direct=not q, pin_call0=c0,
-                                        kinds_later=KINDS),
-                            max_wall_s=wall, weight=3))
+            if q:
+                out.append(dict(name=f"policy:retry={retry}:call0={KINDS[c0]}", harness="rv.props.c07:h_policy",
+                                params=dict(retry=retry, calls=3, direct=False, pin_call0=c0, kinds_later=KINDS),
+                                max_wall_s=wall, weight=3))
+            else:
+                # 3 calls with a direct breaker operation after each call
+                out.append(dict(name=f"policy+direct:retry={retry}:call0={KINDS[c0]}", harness="rv.props.c07:h_policy",
+                                params=dict(retry=retry, calls=3, direct=True, pin_call0=c0, kinds_later=KINDS),
+                                max_wall_s=wall, weight=4))
+                # 4 calls, split by the first call's kind and outcome
+                for o0 in range(3):
+                    out.append(dict(name=f"policy4:retry={retry}:call0={KINDS[c0]}:{OUTS[o0]}", harness="rv.props.c07:h_policy",
+                                    params=dict(retry=retry, calls=4, direct=False, pin_call0=c0, pin_out0=o0, kinds_later=KINDS),
+                                    max_wall_s=wall, weight=5))
     # breaker-level transition table (direct operations), same reference as C06
     from rv.props.c06 import OPS
     for a in range(len(OPS)):
